@@ -229,7 +229,7 @@ class Typed(Core):
         if content.type.optional():
             return True
         for a in content.ancestry:
-            if a.optional():
+            if a.optional() or a.choice():
                 return True
         return False
 
